@@ -97,7 +97,9 @@ def run_scenario_once(binary, faults, idx):
                    'lines': [], 'partial': []}
             lines = [list(l.encode()) for l in frames_for(k)]
             if kind == 'junk':
-                lines = [list(range(0x80, 0x100)), [0, 1, 2, 255]] + lines + [[0xC3, 0x28]]
+                stamp = b'@00A1B2C3D4E'
+                lines = [list(range(0x80, 0x100)), [0, 1, 2, 255], list(stamp) + [0xFF] + list(lines[0]), list(stamp[:-1]) + [0xC3, 0xA9] + list(lines[1]) + [59]] + \
+                    lines + [[0xC3, 0x28], [64] + [0xE2, 0x82, 0xAC] * 6]
             payload = b''
             if kind != 'close':
                 payload = b''.join(bytes(l) + b'\n' for l in lines)
@@ -110,6 +112,10 @@ def run_scenario_once(binary, faults, idx):
                 # closed (FIN, not reset) in the middle of a line: the bytes received so far are a malformed line - here a
                 # complete 56-bit reply of an aircraft nobody heard plus one more digit of whatever was to follow
                 part = list((short(4, enc_alt13(20000 + 100 * k), 0x4f2000 + k) + '8').encode())
+                if k % 3 == 1:       # ... or the first 14 digits of an extended squitter (a long format cut to the length of a short one)
+                    part = list(df17(5, 0x4f2000 + k, me_ident(4, 1, callsign_codes('CUT%d' % k)))[:14].encode())
+                elif k % 3 == 2:     # ... or the same behind a time stamp
+                    part = list(('@%012X' % (k * 7919) + df17(5, 0x4f2000 + k, me_ident(4, 1, callsign_codes('CUT%d' % k)))[:14]).encode())
                 payload += bytes(part)
                 rec['partial'] = part
             if payload:
